@@ -25,12 +25,12 @@ PROPS = {
         "rule": "histories = (content, chunk schedule, operation list); c27x enumerates ALL op lists up to the depth over a 9-op alphabet x ALL chunk compositions of a 6-byte content; non-trivial = distinct request line",
     },
     "C10": {
-        "gen": [["f64"]],
+        "gen": [["f64", "f62", "f128"]],
         "streams": [("c10", 60, 3000)],
         "trusted": [TIE_C,
                     "translator tie: tools/rs2lean.py regenerates lean/Wf/Gen/F64.lean from math/src/field/f64/mod.rs on every run (kernels new/add/sub/mul/neg/double/mul_small/mont_red_cst/mont_to_int/equals as BitVec code with release semantics; exp7, the inversion chain and the quadratic/cubic extension formulas as polymorphic FieldOps code); the theorems are stated about those generated definitions",
                     "bit-level lemmas in lean/Wf/Lemmas/F64Bv.lean are closed by bv_decide (SAT + LRAT certificate checked by ofReduceBool: one `._native.bv_decide.ax_*` axiom each, listed above)",
-                    "f62 / f128 limb code, the generic extension wrappers (QuadExtension/CubeExtension add/sub/neg/inv/conjugate) and the exponentiation loops are hand-modelled (value-level spec model lean/Wf/Model/PrimeSpec.lean, lean/Wf/Model/Fields.lean) and tied by correspondence only"],
+                    "f62 / f128 limb kernels (add/sub/mul/normalize/new/as_int; f128 mul with its 192-bit helper functions) and extension formulas ARE regenerated from source and executed by the driver, but have no theorems yet; their binary-GCD inv is replaced by Fermat inversion in the model; the generic extension wrappers (QuadExtension/CubeExtension add/sub/neg/inv/conjugate) and the exponentiation loops are hand-modelled (value-level spec model lean/Wf/Model/PrimeSpec.lean, lean/Wf/Model/Fields.lean) and tied by correspondence only"],
         "assumptions": ["Rust release semantics (wrapping) for the f64 kernels; `from_mont` is used within its documented precondition (value < M)"],
         "rule": "requests = (field, op, operands); operands biased to 0, 1, p-1, (p-1)/2, 2^32 and 2^63 bands and, for f64, to raw Montgomery words around every case split of the proofs; non-trivial = distinct request line",
     },
